@@ -71,11 +71,14 @@ SPECS["C01"] = {
     "groups": [dict(LIBGO, entries=[
         {"name": "VerifC01_RegistryStep", "native": False, "quick": {"params": [0, 1, 2], "bound": 3}, "thorough": {"params": [0, 1, 2], "bound": 4},
          "expect_reach": ["end", "duplicate", "registered", "unregistered", "delivered", "slot-full", "unknown", "not-a-number"]},
+        {"name": "VerifC01_NatsRouting", "native": False, "quick": {"params": [0, 1]}, "thorough": {"params": [0, 1]},
+         "expect_reach": ["end", "frame-delivered", "foreign-subject", "503-delivered"]},
+        {"name": "VerifC01_SequentialReuse", "native": False, "quick": {"params": [0, 1, 2], "flags": ["-preempt", "2"]}, "thorough": {"params": [0, 1, 2, 3], "flags": ["-preempt", "3"]}},
         {"name": "VerifC01_AdapterCorrelation", "native": False, "quick": {"params": [0, 1, 2], "flags": ["-preempt", "1"]},
          "thorough": {"params": [0, 1, 2, 3], "flags": ["-preempt", "2", "-par", "4"], "procs": 4}, "flags": [],
          "expect_reach": ["end", "with-deadline", "timed-out"]},
     ])],
-    "level_text": "(a) One-step contracts of the real registry from an ARBITRARY pre-state (the channels map is an unknown map of any size; a registered channel is empty or full): Register / Unregister / Execute with an arbitrary op-id string (real strconv.ParseUint on symbolic bytes) store, remove or deliver to exactly the caller's own channel, refuse an in-flight duplicate, discard unknown ids, never overwrite a delivered frame, and leave every other registration untouched (probe key) - this covers any number of concurrent callers and any history because each step is atomic under the registry mutex. (b) Bounded symbolic execution with threads of the real fAdapterTransport (Open/readLoop/TFramedTransport/Request/registry) over a harness pipe: 2 concurrent callers (one optionally with a deadline), an adversarial peer sending k frames in any order / multiplicity / with unknown ids: a caller succeeds only with its own frame, caller 2 always gets its own, failures are only own timeouts, no registration is left. Outside: NATS transport Request (covered for routing by C05/C06 handler harnesses only), HTTP, >2 callers in (b).",
+    "level_text": "(a) One-step contracts of the real registry from an ARBITRARY pre-state (the channels map is an unknown map of any size; a registered channel is empty or full): Register / Unregister / Execute with an arbitrary op-id string (real strconv.ParseUint on symbolic bytes) store, remove or deliver to exactly the caller's own channel, refuse an in-flight duplicate, discard unknown ids, never overwrite a delivered frame, and leave every other registration untouched (probe key) - this covers any number of concurrent callers and any history because each step is atomic under the registry mutex. (b) Bounded symbolic execution with threads of the real fAdapterTransport (Open/readLoop/TFramedTransport/Request/registry) over a harness pipe: 2 concurrent callers (one optionally with a deadline), an adversarial peer sending k frames in any order / multiplicity / with unknown ids: a caller succeeds only with its own frame, caller 2 always gets its own, failures are only own timeouts, no registration is left. (c) one step of fNatsTransport.handler from an arbitrary registry with independent symbolic op ids in the frame and in the reply-subject suffix: a frame reaches the request whose op id it carries and never the request that merely owns the reply subject; a 503 status message is routed by the subject suffix. (d) two requests issued one after the other with 1..3 copies of the first response arriving at any time: the later request completes only with its own frame. Outside: NATS Request under schedules (its body is the same Register / select / Unregister shape), HTTP, >2 callers in (b).",
     "level_note": "Trusted: go/ssa, gose interpreter and scheduler model, z3. " + SCHED_NOTE,
     "bounds": {"quick": "(a) op-id strings 0..3 arbitrary bytes; (b) k <= 2 adversarial frames, delay bound 1", "thorough": "(a) 0..4 bytes; (b) k <= 3, delay bound 2"},
     "assumptions": ["(a) the unknown registry is injective and its channels have capacity 1 (every Register call site passes make(chan []byte, 1))"],
@@ -190,8 +193,10 @@ SPECS["C16"] = {
     "groups": [dict(LIBGO, entries=[
         {"name": "VerifC16_Nesting", "quick": {"params": [0, 1, 4, 5, 6, 9, 10], "procs": 7}, "thorough": {"params": list(range(16)), "procs": 8, "flags": ["-par", "2"]},
          "expect_reach": ["end", "value", "error", "added-later"]},
+        {"name": "VerifC16_SharedSlice", "quick": {"params": [0]}, "thorough": {"params": [0]}, "expect_reach": ["end", "with-providers", "added-later"]},
+        {"name": "VerifC16_ErrorOnly", "quick": {"params": [0]}, "thorough": {"params": [0]}},
     ])],
-    "level_text": "Bounded symbolic execution of the real middleware machinery (NewMethod, composeMiddleware, newInvocationHandler, Method.Invoke, Method.AddMiddleware, FServiceProvider.GetMiddleware) wired exactly as every generated constructor wires it (middleware = append(middleware, provider.GetMiddleware()...); NewMethod(target, target.method, name, middleware)), with a constructor middleware and b provider middleware (a,b <= 2; thorough <= 3), each one logging entry/exit and - under symbolic flags - rewriting the argument and/or the result with a symbolic suffix, the caller's variadic slice with or without spare capacity, optionally one AddMiddleware afterwards, target returning a value or an error: the target is invoked exactly once; every middleware is entered and left exactly once; entry order is [added later] provider[b-1..0] constructor[a-1..0], exit order the reverse; the target sees the argument with all rewrites applied outermost-first and the caller sees the result with all rewrites innermost-first; an error passes through. Outside: the generated constructors themselves (same statements, hand-written), publisher/subscriber wiring (FScopeProvider.GetMiddleware is the same copy), more than 3+3 middleware.",
+    "level_text": "Bounded symbolic execution of the real middleware machinery (NewMethod, composeMiddleware, newInvocationHandler, Method.Invoke, Method.AddMiddleware, FServiceProvider.GetMiddleware) wired exactly as every generated constructor wires it (middleware = append(middleware, provider.GetMiddleware()...); NewMethod(target, target.method, name, middleware)), with a constructor middleware and b provider middleware (a,b <= 2; thorough <= 3), each one logging entry/exit and - under symbolic flags - rewriting the argument and/or the result with a symbolic suffix, the caller's variadic slice with or without spare capacity, optionally one AddMiddleware afterwards, target returning a value or an error: the target is invoked exactly once; every middleware is entered and left exactly once; entry order is [added later] provider[b-1..0] constructor[a-1..0], exit order the reverse; the target sees the argument with all rewrites applied outermost-first and the caller sees the result with all rewrites innermost-first; an error passes through; two methods built one after the other from the same variadic slice (with 0..2 spare capacity, with or without provider middleware, with or without middleware added later) each run exactly their own chain; for methods whose only result is an error a middleware that rewrites the error of one call never leaks into another call. Outside: the generated constructors themselves (same statements, hand-written), publisher/subscriber wiring (FScopeProvider.GetMiddleware is the same copy), more than 3+3 middleware.",
     "level_note": "Trusted: go/ssa, gose interpreter, z3; reflect is an engine boundary (ValueOf/Call/Interface/TypeOf/MethodByName implemented by the engine with Go's argument-assignability and zero-Value panics).",
     "bounds": {"quick": "a,b <= 2 (7 of the 9 combinations)", "thorough": "a,b <= 3"},
     "assumptions": [],
